@@ -347,6 +347,7 @@ def run(ctx):
         cases.append((clist([coq_method(m) for m in meths]), ta, tb, src))
         if i == 0:
             ctx.sample({"kernels": src, "result": tb})
+    tweezer_kernels(ctx, S)
     sc = spec_coq(S)
     hd = "(fun k => match k with " + " ".join(f"| {k} => {'true' if v else 'false'}" for k, v in handled.items()) + " end)"
     chunks = [cases[i:i + 60] for i in range(0, len(cases), 60)]
@@ -366,6 +367,56 @@ def run(ctx):
     ctx.explanation = ("Theorem: with a total rule, plain evaluation of the injected program = spec evaluation of the original, for every program, "
                        "depth, recursion and closure; unknown names fail on both routes; an unhandled kind provably breaks. The rule's coverage of the "
                        "four kinds is reflected from the live code on every run. kirin's CallGraphPass cloning and the Fold that follows are exercised.")
+
+
+TWEEZER_SRC = '''
+@tweezer
+def helper(k: int):
+    z = spec.get_static_trap(zone_id="aux")
+    return grid.shift(z[0:2, 0:1], spec.get_float_constant(constant_id="pitch"), 0.0)
+
+@tweezer{DEC}
+def main(n: int):
+    z = spec.get_static_trap(zone_id="traps")
+    action.set_loc(z[0:2, 0:1])
+    action.turn_on(action.ALL, action.ALL)
+    i = 0
+    for i in range(spec.get_int_constant(constant_id="rows")):
+        action.move(grid.shift(z[0:2, 0:1], spec.get_float_constant(constant_id="origin"), 1.0))
+    action.move(helper(n))
+    action.move(spec.get_special_grid(grid_id="park")[0:2, 0:1])
+    action.turn_off(action.ALL, action.ALL)
+'''
+
+
+def tweezer_kernels(ctx, S):
+    """@tweezer(arch_spec=...) with and without the fold: traced WITHOUT any spec knowledge it must give the path the
+    unspecialised kernel gives when traced with the spec"""
+    from bloqade.shuttle.arch import ArchSpec
+    from props import tracer_common as tc
+    try:
+        plain = kernels.define(TWEEZER_SRC.replace("{DEC}", ""), S=S)["main"]
+        st0, ref = tc.run_impl(plain, (1,), S)
+    except Exception as e:
+        ctx.obligation("the tweezer kernels with lookups can be defined", False, f"{type(e).__name__}: {e}"[:200])
+        return
+    want = tc.abstract_path(ref) if st0 == "ok" else None
+    for fold in (True, False):
+        ctx.evaluations += 1
+        rep = {"src": TWEEZER_SRC.replace("{DEC}", f"(arch_spec=S, fold={fold})"), "fold": fold, "kernel_kind": "tweezer"}
+        try:
+            m = kernels.define(TWEEZER_SRC.replace("{DEC}", f"(arch_spec=S, fold={fold})"), S=S)["main"]
+        except Exception as e:
+            ctx.fail({"kind": "compile-with-spec-refused", "kernel_kind": "tweezer", "error": type(e).__name__}, rep,
+                     f"@tweezer(arch_spec=..., fold={fold}) refuses a kernel @tweezer accepts: {type(e).__name__}: {str(e)[:120]}")
+            continue
+        st, r = tc.run_impl(m, (1,), ArchSpec())
+        got = tc.abstract_path(r) if st == "ok" else None
+        ctx.hist("tweezer kernels", f"fold={fold}: " + ("same path" if got == want and want is not None else "DIFFER"))
+        if got != want or want is None:
+            ctx.fail({"kind": "behaviour-differs", "kernel_kind": "tweezer", "fold": fold}, rep,
+                     f"@tweezer(arch_spec=S, fold={fold}) traced without a spec " + (f"fails ({r})" if st != "ok" else "gives another path") +
+                     " than the unspecialised kernel traced with the spec")
 
 
 def replay(data):
